@@ -93,6 +93,9 @@ func c18run(cs c18case) (sig, detail string) {
 				for k := 0; k < 4; k++ {
 					if k%n == i && (k/n)%(len(chain)+1) == step {
 						key := fmt.Sprintf("key%d", k)
+						if k == 1 {
+							key = "" // a key whose name is the empty string
+						}
 						keys = append(keys, key)
 						want[key] = true
 					}
@@ -196,6 +199,10 @@ func c18run(cs c18case) (sig, detail string) {
 				return
 			}
 			for _, k := range v.Arr[1].Arr {
+				if k.Kind != '$' || k.Null {
+					sig, detail = "scan-reply-lists-a-non-key", fmt.Sprintf("SCAN %s -> %s", cursor, v)
+					return
+				}
 				got[string(k.Str)] = true
 			}
 			cursor = string(v.Arr[0].Str)
